@@ -393,7 +393,7 @@ func (g *Gen) nextBlockTime() time.Time {
 		for _, o := range g.W.Cur.Orders {
 			if o.Expiration != nil {
 				e := TsTime(o.Expiration)
-				if e.After(last) {
+				if e.After(last) && e.Sub(last) < 30*365*24*time.Hour {
 					exps = append(exps, e)
 				}
 			}
